@@ -229,6 +229,8 @@ pub fn big_case(kind: &str, n: usize) -> (Vec<u8>, Vec<HandlerSpec>) {
         "entities" => ("&amp;&#x41;&lt;".repeat(n).into_bytes(), obs_all()),
         "lt_soup" => ("<".repeat(n * 5).into_bytes(), obs_all()),
         "endtags" => ("</div>".repeat(n).into_bytes(), vec![wl::el_observer("div")]),
+        // stray end tags of a name that was open once, under deep unclosed nesting
+        "stray_after_closed" => (format!("<b></b><i></i>{}{}", "<div>".repeat(n), "</b></i>".repeat(n)).into_bytes(), vec![wl::el_observer("div")]),
         "siblings_nth" => ("<p></p>".repeat(n).into_bytes(), vec![wl::el_observer("p:nth-child(2n+1)"), wl::el_observer("p:nth-of-type(3)")]),
         "selectors" => {
             let hs = (0..n.min(3000)).map(|i| wl::el_observer(&format!("div.c{i} > span[data-x=\"{i}\"]"))).collect();
@@ -242,7 +244,7 @@ pub fn big_case(kind: &str, n: usize) -> (Vec<u8>, Vec<HandlerSpec>) {
 
 pub const BIG_KINDS: &[&str] = &[
     "nest", "nest_star", "nest_desc", "nest_endtag", "nest_close", "nest_foreign", "text", "tagname", "tagname_lex", "attrvalue", "attrs", "attrs_valueless", "attrs_valueless_scan", "comment",
-    "comments_many", "entities", "lt_soup", "endtags", "siblings_nth", "selectors", "script", "cdata",
+    "comments_many", "entities", "lt_soup", "endtags", "stray_after_closed", "siblings_nth", "selectors", "script", "cdata",
 ];
 
 fn thread_cpu_seconds() -> f64 {
@@ -378,7 +380,7 @@ impl Property for C15 {
             ex.check(c);
         }
         if rng.chance(1, 12) {
-            let kind = rng.pick(&["nest_star", "nest_endtag", "nest_close", "nest_desc", "text", "attrs", "attrs_valueless", "comments_many", "entities", "endtags", "siblings_nth", "script", "lt_soup", "nest_foreign"]);
+            let kind = rng.pick(&["nest_star", "nest_endtag", "nest_close", "nest_desc", "text", "attrs", "attrs_valueless", "comments_many", "entities", "endtags", "stray_after_closed", "siblings_nth", "script", "lt_soup", "nest_foreign"]);
             let n = 2000 * scale;
             let mut c = Case::of(Scenario::new(vec![]));
             c.mode = format!("linear:{kind}:{n}");
